@@ -495,8 +495,7 @@ def c04(tier, repo=None):
                 ("nil", dict(Shapes=["nil1", "nil2", "nilif", "nilin", "nilbr"], NatFam="six", OCs=[1, 2, 3], InFam="three", MaxNodes=3, AllowFail=True), 40000),
                 ("ebr", dict(Shapes=["ebr", "eskw", "eskg"], NatFam="six", OCs=[1, 2, 3], InFam="three", MaxNodes=3), 40000),
                 ("fofi", dict(Shapes=["fofi"], NatFam="six", OCs=[1, 2, 3], InFam="five", MaxNodes=5), 4000),
-                # same bounds as the quick tier (the deeper ones, NatFam six x oc 1-3, were not yet run to the end on the unchanged tree)
-                ("keypt", dict(Shapes=["keypt"], NatFam="four", OCs=[2], InFam="two", MaxNodes=2, AllowFail=True), None),
+                ("keypt", dict(Shapes=["keypt"], NatFam="six", OCs=[1, 2, 3], InFam="three", MaxNodes=2, AllowFail=True), 20000),
                 ("wide", dict(Shapes=["fank"], NatFam="four", OCs=[1, 2, 3], InFam="five", MaxNodes=6, AllowFail=True), 20000)]
     cases, seen, gen_stats = [], set(), []
     states = trans = 0
